@@ -237,25 +237,33 @@ def hasToken (tok : Bytes) (v : Bytes) : Bool :=
 /-! ### wildcard patterns -/
 namespace Glob
 
+/-- `k` accepts some suffix of the subject (what is left after `*` swallowed a prefix) -/
+def anySuffix (k : Bytes → Bool) : Bytes → Bool
+  | [] => k []
+  | c :: cs => k (c :: cs) || anySuffix k cs
+
+/-- as `anySuffix`, but the swallowed characters must not be LF (regex `.` without DOTALL) -/
+def anySuffixNoNl (k : Bytes → Bool) : Bytes → Bool
+  | [] => k []
+  | c :: cs => k (c :: cs) || (c != 10 && anySuffixNoNl k cs)
+
 /-- `*` (42) matches any string, every other character itself; the WHOLE subject must be consumed -/
 def fullMatch : Bytes → Bytes → Bool
-  | [], [] => true
-  | [], _ :: _ => false
-  | p :: ps, [] => p == 42 && fullMatch ps []
-  | p :: ps, c :: cs =>
-    if p == 42 then fullMatch ps (c :: cs) || fullMatch (p :: ps) cs
-    else p == c && fullMatch ps cs
-termination_by p s => p.length + s.length
+  | [], s => s.isEmpty
+  | p :: ps, s =>
+    if p == 42 then anySuffix (fullMatch ps) s
+    else match s with
+      | [] => false
+      | c :: cs => p == c && fullMatch ps cs
 
-/-- as `fullMatch`, but `*` does not cross a newline (regex `.` without DOTALL) -/
+/-- as `fullMatch`, but `*` does not cross a newline -/
 def matchNoNl : Bytes → Bytes → Bool
-  | [], [] => true
-  | [], _ :: _ => false
-  | p :: ps, [] => p == 42 && matchNoNl ps []
-  | p :: ps, c :: cs =>
-    if p == 42 then matchNoNl ps (c :: cs) || (c != 10 && matchNoNl (p :: ps) cs)
-    else p == c && matchNoNl ps cs
-termination_by p s => p.length + s.length
+  | [], s => s.isEmpty
+  | p :: ps, s =>
+    if p == 42 then anySuffixNoNl (matchNoNl ps) s
+    else match s with
+      | [] => false
+      | c :: cs => p == c && matchNoNl ps cs
 
 /-- `re.compile("^" + wc.replace(".", "\\.").replace("*", ".*") + "$").match(s)` for a wildcard without other
 regex metacharacters: `$` also matches before a final newline -/
